@@ -177,6 +177,13 @@ def check_artefact(ctx, a, stats, errs=None):
                     V("poloidal_distance discontinuous across a region join", reg,
                       dict(contour=k, below=float(prev_last), above=float(pd[0])))
                 prev_last = pd[-1]
+                if gi == 0 and periodic and k == 1:
+                    # documented origin on closed surfaces: the first core cell in y-index order
+                    # (the lower X-point's poloidal location in the standard ordering)
+                    first_in_y = min(group, key=lambda r_: regs[r_]["yslice"][0])
+                    if first_in_y != rid:
+                        V("closed surfaces: poloidal_distance is not measured from the first core cell in y-index order",
+                          reg, dict(starts_in=reg["name"], first_core_region_in_y=regs[first_in_y]["name"]))
                 if gi == 0:
                     origin = 0 if periodic else 2 * myg
                     if abs(pd[origin]) > 1e-12:
